@@ -460,8 +460,19 @@ func (vm *VM) appendSlice(first int8, length int, slice reflect.Value) reflect.V
 			}
 		default:
 			regs := vm.regs.general[vm.fp[3]+Addr(first):]
+			isFunc := slice.Type().Elem().Kind() == reflect.Func
 			for i, j := 0, ol; i < length; i, j = i+1, j+1 {
-				slice.Index(j).Set(regs[i])
+				v := regs[i]
+				if isFunc && v.IsValid() {
+					if c, ok := v.Interface().(*callable); ok {
+						v = c.Value(vm.env)
+					}
+				}
+				if v.IsValid() {
+					slice.Index(j).Set(v)
+				} else {
+					slice.Index(j).SetZero()
+				}
 			}
 		}
 		return slice
